@@ -33,7 +33,7 @@ int main(void)
     ASSUME(desc > 0);
 #endif
     uint32_t R = vin_u32(), X = vin_u32();
-    ASSUME((R >> N) == 0 && (X >> N) == 0 && (R & X) == 0 && R != 0);
+    ASSUME((N >= 32 || ((R >> (N & 31)) == 0 && (X >> (N & 31)) == 0)) && (R & X) == 0 && R != 0);
     int tot = pop(R) + pop(X);
     ASSUME(tot >= LO && tot <= HI);
     int rl[N + 1], xl[N + 1], need[N + 2];
@@ -67,8 +67,8 @@ int main(void)
             int v = need[i];
             if (v == -1) { term = 1; continue; }
             if (v < 0 || v >= N) { ok_range = 0; continue; }
-            if ((NB >> v) & 1u) ok_distinct = 0;
-            NB |= 1u << v;
+            if ((NB >> (v & 31)) & 1u) ok_distinct = 0;
+            NB |= 1u << (v & 31);
             cnt++;
         }
         CHECK(term, "answer is not -1 terminated within k+m+1 entries");
